@@ -913,6 +913,8 @@ def gen_op(rng, bufs, doc=None):
         return ['maptext', rng.choice(['rev', 'dup'])]
     if r < 0.925:
         return ['trace']
+    if r < 0.94:
+        return ['apply', 'bang']          # Transformer.apply(function) with a user-written generator function
     return [rng.choice(SIMPLE)]
 
 
@@ -932,10 +934,44 @@ def has_attr(path):
 ZERO_WIDTH = ('before', 'after', 'wrap', 'wrapel', 'filter', 'replace')
 
 
+def gen_lazy_chain(rng, doc=None):
+    """writer-then-reader chains WITHOUT a buffer() barrier (the documented usage
+    `Transformer(p).copy(b).end().select(q).prepend(b)`): the reader injects the buffer as it is at the
+    moment of the injection (theorems lazy_trace_semantics / lazy_raw_chain_wellnested); element / text
+    selections only (hypothesis of C20-attr-structural), one writer (C20-buffer-two-writers)"""
+    def path():
+        for _ in range(20):
+            p = gen_path_for(rng, doc) if doc else gen_path(rng)
+            if not has_attr(p):
+                return p
+        return None
+    p1 = path()
+    if p1 is None:
+        return None
+    writer = [rng.choice(['copy', 'cut']), rng.choice([0, 1]), rng.random() < 0.5]
+    mids = rng.choice([[], [], [['end']], ['end+select'], ['select'], [['rename', 'n']], [['empty']],
+                       [['attr', 'k', 'new']], ['end+select']])
+    mid = []
+    for m in mids:
+        if m in ('select', 'end+select'):
+            p2 = path()
+            if p2 is None:
+                return None
+            mid += ([['end']] if m == 'end+select' else []) + [['select', p2]]
+        else:
+            mid.append(m)
+    reader = [rng.choice(INJECT), ['buf', writer[1]]]
+    return [['select', p1], writer] + mid + [reader]
+
+
 def gen_chain(rng, maxlen=4, doc=None, wild=False):
     """Transformer(path).op.op...: at most maxlen operations after the first select.
     Hypothesis of known finding C20-attr-structural: while an attribute selection is in the
     stream (its ATTR pseudo-event is a zero-width selection) no before/after/wrap/filter/replace."""
+    if not wild and maxlen >= 4 and rng.random() < 0.06:
+        lz = gen_lazy_chain(rng, doc)
+        if lz is not None:
+            return lz
     n = rng.choice([0, 1, 1, 1, 2, 2, 2, 3, 3, 4])
     n = min(n, maxlen)
     ops = [['select', gen_path_for(rng, doc) if doc else gen_path(rng)]]
